@@ -25,6 +25,13 @@ def replay(case):
     m = len(mlist)
     for trial in range(3):
         rho = tp.random_state(N, rnd)
+        if case.get("warm") and which == "tomography" and trial == 0:
+            prep0 = tp.make_prep(N, "plain")
+            circs0 = tm.full_state_tomography_circuits(prep0, case["warm"], None)
+            fit0 = tm.FullStateTomographyFitter(_Res([tp._with_cregs(tp.native_counts(c, rho, N), prep0.num_clbits) for c in circs0]), circs0)
+            fit0.expectation_values()
+            if N <= 4:
+                fit0.density_matrix()
         prep = tp.make_prep(N, case.get("variant", "plain") if mq is not None else "plain")
         ncl = prep.num_clbits
         try:
